@@ -490,6 +490,85 @@ def _eval_int(p, vals):
     return tr, ti
 
 
+def _partial(p, vals):
+    """partial evaluation: {monomial over the unassigned generators: (re, im)} (generator 0 = I_ folded into the coefficient)"""
+    out = {}
+    for m, c in p.items():
+        vr, vi = Fraction(int(c)), Fraction(0)
+        rest = list(m)
+        for k, e in enumerate(m):
+            if not e:
+                continue
+            if k == 0:
+                br, bi = Fraction(0), Fraction(1)
+            elif vals[k] is not None:
+                br, bi = vals[k]
+            else:
+                continue
+            rest[k] = 0
+            for _ in range(e):
+                vr, vi = vr * br - vi * bi, vr * bi + vi * br
+        key = tuple(rest)
+        a = out.get(key, (Fraction(0), Fraction(0)))
+        a = (a[0] + vr, a[1] + vi)
+        if a == (0, 0):
+            out.pop(key, None)
+        else:
+            out[key] = a
+    return out
+
+
+def _guided_values(leaf, ngens, nuser, rnd, span, cplx):
+    vals = [None] * ngens
+    eqs = list(leaf.eqs)
+    for _ in range(4 * ngens + 8):
+        pending = []
+        progress = False
+        for e in eqs:
+            pe = _partial(e, vals)
+            if not pe:
+                continue
+            gens = set()
+            for m in pe:
+                for k, x in enumerate(m):
+                    if x:
+                        gens.add(k)
+            if not gens:
+                return None  # non-zero constant
+            if len(gens) == 1:
+                (k,) = gens
+                if k in leaf.sigma:
+                    return None
+                if all(sum(m) <= 1 for m in pe):
+                    c1 = next(v for m, v in pe.items() if sum(m) == 1)
+                    c0 = next((v for m, v in pe.items() if sum(m) == 0), (Fraction(0), Fraction(0)))
+                    den = c1[0] * c1[0] + c1[1] * c1[1]
+                    xr = -(c0[0] * c1[0] + c0[1] * c1[1]) / den
+                    xi = -(c0[1] * c1[0] - c0[0] * c1[1]) / den
+                    if (xi != 0 and not cplx) or (k >= nuser and (xi != 0 or xr <= 0)):
+                        return None
+                    vals[k] = (xr, xi)
+                    progress = True
+                    continue
+            pending.append((len(gens), sorted(gens), e))
+        if progress:
+            eqs = [e for _, _, e in pending]
+            continue
+        if not pending:
+            return vals
+        pending.sort(key=lambda x: x[0])
+        cands = [k for k in pending[0][1] if k not in leaf.sigma]
+        if not cands:
+            return None
+        k = rnd.choice(cands)
+        if k >= nuser:
+            vals[k] = (Fraction(rnd.randint(1, span)), Fraction(0))
+        else:
+            vals[k] = (Fraction(rnd.randint(-span, span)), Fraction(rnd.randint(-span, span)) if cplx else Fraction(0))
+        eqs = [e for _, _, e in pending]
+    return None
+
+
 def find_point(ring, leaf, seed=0, tries=80):
     """search a point of the leaf: free generators random small (Gaussian) integers, substituted
     generators by sigma; requires every remaining equality to vanish and every disequality not to."""
@@ -510,8 +589,13 @@ def find_point(ring, leaf, seed=0, tries=80):
         span = 2 + t // 10
         cplx = ring.mode == "field" and t % 4 == 3
         vals = [None] * ngens
+        if t % 2 == 1 and leaf.eqs:
+            # guided attempt: assign generators one at a time and solve the equalities that have become linear in a single generator
+            vals = _guided_values(leaf, ngens, nuser, rnd, span, cplx)
+            if vals is None:
+                continue
         for k in range(1, ngens):
-            if k in leaf.sigma:
+            if k in leaf.sigma or vals[k] is not None:
                 continue
             if k >= nuser:
                 vals[k] = (Fraction(rnd.randint(1, span)), Fraction(0))
